@@ -262,6 +262,15 @@ func vC16Judge(c *vh.Case, v *vC16View, key string, R []peer.ID, K, limit int, t
 			sig := "exact-when-uncrowded"
 			// input class of the suspected defect: a peer with two addresses inside one group is dropped
 			allMulti, missing := true, 0
+			inWant := map[peer.ID]bool{}
+			for _, p := range want {
+				inWant[p] = true
+			}
+			for _, p := range R {
+				if !inWant[p] {
+					allMulti = false // not merely a dropped peer
+				}
+			}
 			for _, p := range want {
 				if !seen[p] {
 					missing++
